@@ -58,7 +58,8 @@ class Cl:
         if r < 0.7:
             return lst([self.t0() for _ in range(self.rnd.randint(0, 2))])
         if r < 0.75:
-            return lst([self.t0()], self.var(1))
+            # list patterns with one to three terms before the bar
+            return lst([self.t0() for _ in range(self.rnd.choice([1, 1, 2, 3]))], self.var(1))
         return self.var(1)
 
 
